@@ -80,13 +80,16 @@ def build_tqc(ex, mk, N, syms, genesis, tqc_view):
     # Symmetry reduction: weights are symbolic, so validators are interchangeable; vote shapes are enumerated as
     # multisets in the order the real BTreeMap iterates them (derived Ord: high_vote None < Some, then high_qc
     # None < Some; contents symbolic), signers that did not sign last.
-    TYPES = [(True, False, False), (True, False, True), (True, True, False), (True, True, True), (False, False, False)]
+    # (messages WITH a high vote are ordered by the vote first and by the carried certificate only then, so for them the presence of
+    # a certificate is a free choice per entry, not part of the canonical shape order)
+    TYPES = [(True, False, False), (True, False, True), (True, True, None), (False, False, False)]
     lo = 0
     for i, s in enumerate(syms):
         ex.assume(s.ranges())
         t = lo + ex.choose(len(TYPES) - lo, f'shape{i}')
         lo = t
         signs, has_hv, has_qc = TYPES[t]
+        if has_qc is None: has_qc = ex.choose(2, f'carries_qc{i}') == 1
         ex.assume(s.inS == signs)
         if not signs:
             present.append(None); continue
@@ -100,6 +103,16 @@ def build_tqc(ex, mk, N, syms, genesis, tqc_view):
         msg = mk.adt(V + r'v2::replica_timeout::ReplicaTimeout', view=view(tqc_view), high_vote=hv, high_qc=qc)
         signers = mk.tuple_struct(V + r'v2::consensus::Signers', M.BitVecV([j == i for j in range(N)]))
         entries.append((msg, signers))
+    # Within one shape the real BTreeMap orders the messages by the derived Ord of the reported high vote: (view, block number,
+    # payload hash). The entries are listed in that order — ties in (view, number) are left open (the order of opaque hashes is
+    # unknown), as is the order by the carried certificate — so that code which depends on the ADJACENCY of entries is explored
+    # on maps that exist, and its counterexamples replay (seed C02_i). Validators are interchangeable (symbolic weights), so
+    # fixing "entry i is signed by validator i" loses nothing.
+    idx = [i for i, p in enumerate(present) if p is not None]
+    for a, b in zip(idx, idx[1:]):
+        if present[a][0] and present[b][0]:
+            sa, sb = syms[a], syms[b]
+            ex.assume(z3.Or(sa.hv_view < sb.hv_view, z3.And(sa.hv_view == sb.hv_view, sa.hv_num <= sb.hv_num)))
     tqc = mk.adt(V + r'v2::replica_timeout::TimeoutQC', view=view(tqc_view), map=M.MapV(entries, ordered=True), signature=Opaque('aggsig'))
     return mk.adt(V + r'v2::leader_proposal::ProposalJustification', 'Timeout', _0=tqc), present
 
